@@ -524,6 +524,21 @@ class Scenario:
                 ln = min(self.segsize, self.size - off)
             self.reads.append({"id": "r%d" % r, "node": "n%d" % node, "off": off, "len": ln, "trig": trig,
                                "steps": rng.randint(1, 12)})
+        if self.profile == "c02" and self.size >= 2:
+            # chained reads (an open file handle read piecewise): a read that ends at P, then - once everything has
+            # settled - two overlapping reads that both start at P on the same node.  Own generator: the scenarios of
+            # the main stream stay what they were.
+            r2 = random.Random("chain-%d-%d-%d" % (self.idx, self.size, len(self.reads)))
+            if r2.random() < 0.3:
+                P = r2.randint(1, self.size - 1)
+                if r2.random() < 0.3 and self.numsegs > 1:
+                    P = r2.randrange(1, self.numsegs) * self.segsize
+                nid = len(self.reads)
+                for j, (off, ln, trig) in enumerate([(0, P, "quiescent"),
+                                                     (P, r2.randint(1, self.size - P), "quiescent"),
+                                                     (P, r2.randint(1, self.size - P), r2.choice(["now", "now", "steps"]))]):
+                    self.reads.append({"id": "r%d" % (nid + j), "node": "n0", "off": off, "len": ln, "trig": trig,
+                                       "steps": r2.randint(1, 6)})
         if self.profile == "c46" and len(self.reads) >= 2 and rng.random() < 0.3:
             # a reader that goes away (its consumer calls stopProducing, as a closed HTTP connection does) while other
             # readers of the same node are waiting: the others must still be served
